@@ -458,6 +458,9 @@ func (a *Authenticator) handleSignatureResponse(pkt *Packet, p *Peer) {
 	}
 
 	id, err := a.VerifySignature(rm.PublicKey, rm.Signature, p.secureKey.extra)
+	if err == nil && id.Equal(a.self) {
+		err = fmt.Errorf("selfAddress")
+	}
 	if err != nil {
 		err := fmt.Errorf("handleSignatureResponse error[%v]", err)
 		a.logger.Infoln("handleSignatureResponse", p.ConnString(), "Error", err)
